@@ -96,6 +96,7 @@ snoopy_configfile_option_t snoopy_configfile_optionRegistry[] = {
 int snoopy_configfile_load (
     char *iniFilePath
 ) {
+    FILE       *iniFile;
     int         iniParseStatus;
     snoopy_configuration_t *CFG;
 
@@ -107,8 +108,13 @@ int snoopy_configfile_load (
     /* Tell Snoopy we are using configuration file */
     CFG->configfile_path = iniFilePath;
 
-    /* Parse the INI configuration file first */
-    iniParseStatus = ini_parse(iniFilePath, snoopy_configfile_iniParser_callback, CFG);
+    /* Parse the INI configuration file first (opened close-on-exec - another thread may be exec()-ing right now) */
+    iniFile = fopen(iniFilePath, "re");
+    if (NULL == iniFile) {
+        return -1;
+    }
+    iniParseStatus = ini_parse_file(iniFile, snoopy_configfile_iniParser_callback, CFG);
+    fclose(iniFile);
     if (0 != iniParseStatus) {
         return -1;
     }
